@@ -23,7 +23,9 @@ EXPLANATION = (
     "by its own test or, for a composite outside any field mask, be covered by shown single bits - otherwise a set bit "
     "with a declared name is never shown. R5: the ioctl request split found in BscIoctl.__str__ is compared with _IOC's "
     "inverse (number = x & 0xff, group = (x >> 8) & 0xff, length = (x >> 16) & 0x1fff, direction = x & 0xe0000000); the "
-    "fields must be disjoint, cover 32 bits, and the direction table must name IOC_VOID/OUT/IN/INOUT."
+    "fields must be disjoint, cover 32 bits, and the direction table must name IOC_VOID/OUT/IN/INOUT. R7: when a decoder "
+    "splits one record word into several fields by shifts and masks, the bit sets reaching the fields are pairwise "
+    "disjoint (a field shifted out without its mask is decoded together with its neighbour's bits)."
 )
 
 TH = "pykdebugparser.trace_handlers."
@@ -363,13 +365,33 @@ def check(repo: Repo, run: Run) -> None:
             frec = interp.run(repo.module(mod.split(".", 1)[1]), fnode)
             roots = [r.value for r in frec.returns if r.value is not None] + [a for e in frec.effects for a in e.args]
             seen_direct = set()
+            def own_condition(c: T, outer) -> T:
+                """Drop the conjuncts that only repeat "the earlier alternatives of this if/elif chain were not taken"."""
+                parts = list(c.a[1]) if c.op == "bool" and c.a[0] == "and" else [c]
+                keep = [p_ for p_ in parts if not (p_.op == "not" and p_.a[0] in outer)]
+                if not keep:
+                    return const(True)
+                return keep[0] if len(keep) == 1 else T("bool", ("and", tuple(keep)))
+
+            chains = []          # (ite node, conditions of the enclosing alternatives that were not taken)
+
+            def visit(x, outer):
+                if x.op == "ite":
+                    chains.append((x, outer))
+                    visit(x.a[1], ())
+                    visit(x.a[2], outer + (own_condition(x.a[0], outer),))
+                else:
+                    for ch in sym.children(x):
+                        visit(ch, ())
             for root in roots:
-                for x in sym.walk(root):
-                    if x.op != "ite" or x.a[1].op != "enum" or x.a[1].a[0] != ci.qualname or x.a[1].a[1] in shown_members:
+                visit(root, ())
+            for x, outer in chains:
+                if True:
+                    if x.a[1].op != "enum" or x.a[1].a[0] != ci.qualname or x.a[1].a[1] in shown_members:
                         continue
                     name = x.a[1].a[1]
                     val = md.get(name)
-                    r = residual_of([(x.a[0], True)], T("no-elem", ()), val, name)
+                    r = residual_of([(own_condition(x.a[0], outer), True)], T("no-elem", ()), val, name)
                     if r.kind != "bit" or (name, r.c) in seen_direct:
                         continue
                     seen_direct.add((name, r.c))
@@ -404,6 +426,7 @@ def check(repo: Repo, run: Run) -> None:
 
     # ---------------- R5 ioctl
     check_ioctl(repo, run, interp)
+    check_packed_words(repo, run)
 
 
 def extract(t: T, req: T) -> Optional[Tuple[int, int]]:
@@ -423,6 +446,81 @@ def extract(t: T, req: T) -> Optional[Tuple[int, int]]:
         if inner is not None:
             return (inner[0] + t.a[2].a[0], inner[1] >> t.a[2].a[0])
     return None
+
+
+def _ci(t: T):
+    return t.a[0] if t.op == "const" and isinstance(t.a[0], int) and not isinstance(t.a[0], bool) else None
+
+
+def _is_word(t: T) -> bool:
+    return t.op == "sub" and t.a[0].op == "attr" and t.a[0].a[1] == "values" and t.a[1].op == "const"
+
+
+def _reach(t: T):
+    """(word, m, s) such that t == (word & m) >> s, for chains of `>> k` and `& c` over a record word; None otherwise."""
+    full = (1 << 64) - 1
+    if _is_word(t):
+        return t, full, 0
+    if t.op == "bin" and t.a[0] == ">>" and _ci(t.a[2]) is not None and _ci(t.a[2]) >= 0:
+        r = _reach(t.a[1])
+        if r is not None:
+            w, m, sh = r
+            k = _ci(t.a[2])
+            return w, m & ~((1 << min(sh + k, 64)) - 1) & full, sh + k
+    if t.op == "bin" and t.a[0] == "&":
+        for x, c in ((t.a[1], t.a[2]), (t.a[2], t.a[1])):
+            if _ci(c) is not None and _ci(c) >= 0:
+                r = _reach(x)
+                if r is not None:
+                    w, m, sh = r
+                    return w, m & ((_ci(c) << sh) & full), sh
+    return None
+
+
+def _extraction(t: T):
+    """(word, bit mask of the word that can reach the value) for shift / mask chains over a record word that are not the
+    whole word; None otherwise."""
+    r = _reach(t)
+    if r is None or _is_word(t):
+        return None
+    return r[0], r[1]
+
+
+def check_packed_words(repo: Repo, run: Run) -> None:
+    """R7: when a decoder splits one record word into several fields, each field is computed from its own bits only.
+
+    A field that is extracted with a shift but without its mask carries the neighbouring field's bits into the decoding
+    (a zero protection is then not recognised as VM_PROT_NONE, an enum constructor sees a foreign value ...)."""
+    D = decoders.Decoders(repo)
+    n = 0
+    for e in D.entries():
+        d = D.decode(e)
+        if d.ret is None or d.ret.op != "new":
+            continue
+        per: Dict[T, set] = {}
+        for k, v in d.ret.a[1]:
+            stack = [decoders.strip_conditions(v)]
+            while stack:
+                x = stack.pop()
+                ex = _extraction(x)
+                if ex:
+                    per.setdefault(ex[0], set()).add((k, ex[1]))
+                    continue
+                stack.extend(sym.children(x))
+        for w, fs in per.items():
+            fs = sorted(fs)
+            if len({m for _, m in fs}) < 2:
+                continue
+            n += 1
+            ov = [(a, b) for i, a in enumerate(fs) for b in fs[i + 1:] if a[1] & b[1] and a[1] != b[1]]
+            run.ob("R7", e.module.name, e.func_name, f"{e.key}: fields of {sym.pretty(w)}", not ov,
+                   "" if not ov else
+                   f"{e.key}: field `{ov[0][0][0]}` is computed from bits {ov[0][0][1]:#x} of {sym.pretty(w)} and field "
+                   f"`{ov[0][1][0]}` from bits {ov[0][1][1]:#x}: the fields of the packed word overlap, so one of them is decoded "
+                   f"together with its neighbour's bits",
+                   facts={"fields": [(k, hex(m)) for k, m in fs]}, line=e.func.lineno,
+                   witness=None if not ov else "a word whose overlapping bits are non-zero while the narrower field is zero")
+    run.floor("R7", "decoders that split a record word into several fields", n, 4)
 
 
 def check_ioctl(repo: Repo, run: Run, interp) -> None:
